@@ -5,6 +5,7 @@ pub mod c05;
 pub mod c06;
 pub mod c07;
 pub mod c09;
+pub mod c10;
 pub mod c11;
 pub mod c12;
 pub mod c13;
@@ -17,6 +18,7 @@ pub fn all() -> Vec<&'static dyn Property> {
         &c06::C06,
         &c07::C07,
         &c09::C09,
+        &c10::C10,
         &c11::C11,
         &c12::C12,
         &c13::C13,
